@@ -133,6 +133,11 @@ def parseKV (tok : String) : Option (List (Bytes × Int)) :=
 
 def handlePTN : Handler := fun st op args =>
   match op, args with
+  -- `ParseFile` is `ParsePTN` of the file's bytes
+  | "ptnfile", [h] =>
+    some (st, match hexDec h with
+      | none => "bad-hex"
+      | some b => fmtR (parsePTN (mkEnv st noTps) b) fmtFile)
   | "ptnparse", [h] =>
     some (st, match hexDec h with
       | none => "bad-hex"
